@@ -253,11 +253,24 @@ def c_scalar_math(_):
     return ok
 
 
+def c_tfp(_):
+    from tensorflow_probability.substrates import jax as tfp
+    clip = tfp.bijectors.SoftClip(low=np.array(1e-10), high=np.array(1 - 1e-10), hinge_softness=0.01)
+    g = np.concatenate([np.linspace(0.0, 1.0, 2001), np.array([0.0, 1e-6, 0.25, 1 / 3, 0.5, 0.999999, 1.0])])
+    g = np.unique(g)
+    f = np.array(clip.forward(g))
+    ok = bool(np.all(np.diff(f) > 0)) and bool(np.all(f > 1e-10)) and bool(np.all(f < 1 - 1e-10)) and isnan(float(np.array(clip.forward(np.array([NAN])))[0]))
+    q = np.linspace(0.001, 0.999, 2001)          # jax computes in float32 unless x64 is enabled: compare away from the saturating ends
+    ok = ok and bool(np.allclose(np.array(tfp.distributions.Normal(0.0, 1).quantile(q)), stats.norm.ppf(q), rtol=1e-4, atol=1e-5))
+    return ok
+
+
 CONTRACTS = {
     'numpy.nanmin/nanmax': [c_nanminmax, c_nanminmax_empty], 'numpy.min/max': [c_minmax], 'numpy.nanmedian': [c_nanmedian], 'numpy.median': [c_median],
     'numpy.nanmean': [c_nanmean], 'numpy.nanstd': [c_nanstd], 'ndarray.sum': [c_sum], 'numpy.searchsorted': [c_searchsorted], 'numpy.unique': [c_unique],
     'scipy.stats.rankdata': [c_rankdata], 'numpy.argmin': [c_argmin], 'numpy.interp': [c_interp], 'numpy.masks_and_copies': [c_mask],
     'scalar_math_and_transcendental_axioms': [c_scalar_math],
+    'tfp.bijectors.SoftClip': [c_tfp], 'tfp.distributions.Normal.quantile': [c_tfp],
 }
 
 
@@ -268,7 +281,7 @@ def main():
     for key, fns in CONTRACTS.items():
         rec = {'ok': True, 'cases': 0}
         for fn in fns:
-            for xs in (arrs if fn not in (c_scalar_math, c_nanminmax_empty) else [[0.0]]):
+            for xs in (arrs if fn not in (c_scalar_math, c_nanminmax_empty, c_tfp) else [[0.0]]):
                 try:
                     ok = bool(fn(xs))
                 except Exception as e:  # noqa: BLE001
